@@ -234,7 +234,7 @@ inline void guard_collect() {
     if (!known && g->ncls < 32) {
         strncpy(g->cls[g->ncls], g->pending, 95);
         g->ncls++;
-        vh::note(std::string("crash class '") + g->pending + "' crashed once (FAIL printed); further transitions of this class are not driven");
+        vh::outcome(std::string("crash class '") + g->pending + "' crashed once (FAIL printed); further transitions of this class are not driven");
     }
     g->pending[0] = 0;
 }
@@ -257,6 +257,42 @@ inline void guard_enter(const std::string& c) {
 inline void guard_leave() {
     if (guard()) guard()->pending[0] = 0;
 }
+
+// Owner of the container under test.  Unlike std::optional it can give the object up without running its
+// destructor: when tearing down explored states crashes (a defect that corrupts the container so that its
+// destructor dies would otherwise crash at the end of every node expansion and exhaust the restart budget),
+// the first crash is reported by the engine and later states are leaked instead of destroyed.
+template <class V>
+struct Holder {
+    V* p = nullptr;
+    Holder() {}
+    Holder(const Holder&) = delete;
+    Holder& operator=(const Holder&) = delete;
+    ~Holder() { reset(); }
+    template <class... Args>
+    void emplace(Args&&... args) {
+        reset();
+        p = new V(std::forward<Args>(args)...);
+    }
+    void reset() {
+        V* q = p;
+        p = nullptr;
+        delete q;
+    }
+    void leak() { p = nullptr; }
+    V* operator->() const { return p; }
+    V& operator*() const { return *p; }
+};
+// returns false if teardown is known to crash (caller leaks the containers)
+inline bool teardown_begin() {
+    if (guard_blocked("state-teardown")) {
+        vh::stat_add("state_teardowns_skipped_after_crash");
+        return false;
+    }
+    guard_enter("state-teardown");
+    return true;
+}
+inline void teardown_end() { guard_leave(); }
 
 // ---------------------------------------------------------------------------------------------
 // vh::run_isolated() zeroes every counter when it starts, so a shard that runs several
